@@ -75,9 +75,9 @@ func c17grammarAs(c *core.Ctx, R string) {
 			if b, ok := st.Field(i).Type().Underlying().(*types.Basic); ok {
 				switch {
 				case b.Info()&types.IsBoolean != 0:
-					zero[st.Field(i).Name()] = constant.MakeBool(false)
+					zero[c.P.PinnedFieldName(nt, i)] = constant.MakeBool(false)
 				case b.Info()&types.IsInteger != 0:
-					zero[st.Field(i).Name()] = constant.MakeInt64(0)
+					zero[c.P.PinnedFieldName(nt, i)] = constant.MakeInt64(0)
 				}
 			}
 		}
@@ -275,7 +275,7 @@ func c17clone(c *core.Ctx) {
 		st := nt.Underlying().(*types.Struct)
 		found := false
 		for i := 0; i < st.NumFields(); i++ {
-			if st.Field(i).Name() != fld.field {
+			if c.P.PinnedFieldName(nt, i) != fld.field {
 				continue
 			}
 			found = true
@@ -285,7 +285,7 @@ func c17clone(c *core.Ctx) {
 				if ks, isStruct := mt.Key().Underlying().(*types.Struct); isStruct {
 					hasV, hasT := false, false
 					for j := 0; j < ks.NumFields(); j++ {
-						switch ks.Field(j).Name() {
+						switch c.P.PinnedFieldName(mt.Key(), j) {
 						case "value":
 							hasV = true
 						case "jsonType":
